@@ -1,6 +1,7 @@
 package checks
 
 import (
+	"strings"
 	"fmt"
 	"math/rand"
 	"sort"
@@ -73,6 +74,9 @@ func renderPage(c *core.Ctx, tpl *textwire.Template, name string, data map[strin
 			o.Err = e.Error()
 		}
 	})
+	if !o.Panicked && fe == nil && !strings.Contains(name, "shuffle") {
+		poolAddEntry(c, pooledEval{src: name, data: data, want: outcomeText(o.Out, nil), tpl: tpl})
+	}
 	return o, fe
 }
 
